@@ -279,9 +279,13 @@ def run_case(case: Dict[str, Any], ctx: Any) -> core.CaseResult:
     # ---- several graphs of one session: saved under one directory name in turn, or under names that differ only after a dot
     # and restored after all of them were saved; nothing is tidied up in between (a user does not clean /tmp either)
     if len(batch) == 2 and not res.violations:
-        how = core.rng("c19batch", case["win_seed"]).choice(["same_dir", "dotted", "dotted_version", "renamed", "renamed"])
+        how = core.rng("c19batch", case["win_seed"]).choice(["same_dir", "dotted", "dotted_version", "renamed", "renamed", "nested", "trailing_sep"])
         names = {"same_dir": ["cp_graph", "cp_graph"], "dotted": ["cp_graph.rank0", "cp_graph.rank1"], "dotted_version": ["run_v1.0", "run_v1.1"],
-                 "renamed": ["cp_first", "cp_second"]}[how]
+                 "renamed": ["cp_first", "cp_second"],
+                 # the second graph is saved into the directory that already holds the first one's archive and staging directory
+                 "nested": ["out/step1", "out"],
+                 # a directory name written with its trailing separator (the archive then lies inside it)
+                 "trailing_sep": ["cp_a/", "cp_b/"]}[how]
         wd = batch[0][0].workdir
         dirs = [os.path.join(wd, "batch", nm) for nm in names]
         zips, ok = [], True
